@@ -396,7 +396,11 @@ func (p *Peer) Response(streamID uint32) Response {
 				r.Ended = true
 			}
 		case http2.FrameRSTStream:
-			r.Reset, r.ResetCode = true, e.ErrCode
+			// a RST_STREAM that follows a complete response (e.g. STREAM_CLOSED for request DATA
+			// that arrived after the server had finished) does not undo the response
+			if !r.Ended {
+				r.Reset, r.ResetCode = true, e.ErrCode
+			}
 		}
 	}
 	return r
